@@ -45,9 +45,7 @@ def run_wl(toks):
                                      flatcrit=flatcrit, convergence=float(np.exp(convln)))
             if len(toks) > 11 and toks[11] == "second":
                 # the run under test is the SECOND run() of the same machine: it must start from g = 0, H = 0, f = e again
-                m.run()
-                for f in os.listdir(d):
-                    os.remove(os.path.join(d, f))
+                m.run()       # (its output files stay in the directory: the second run's files must describe the second run only)
             real_moves.RecordingRandom.TAPE = []
             ret = m.run()
         files = {}
